@@ -195,7 +195,45 @@ class C13(Prop):
     REQS = ['incr', 'decr', 'reload', 'restart', 'set', 'kill']
     budget = {'quick': 30, 'thorough': 600}
 
+    def gen_ini(self, rng, tier, seed):
+        """the environment as a configuration file builds it: a global [env]
+        section, [env:NAME] sections for some of the watchers, copy_env on
+        or off - each worker gets exactly its own"""
+        cfg = gen.gen_base_cfg(rng, seed, nwatch=(2, 3, 3),
+                               kinds=('obedient', 'selfexit'),
+                               grace=[0.05, 0.25], warmup=[0],
+                               singleton_p=0.0)
+        cfg['from_ini'] = True
+        cfg['warmup_delay'] = 0
+        genv = rng.choice([None, {'GLOBAL': 'g1'},
+                           {'GLOBAL': 'g1', 'FOO': 'global foo'}])
+        if genv:
+            cfg['ini_global_env'] = genv
+        for i, wc in enumerate(cfg['watchers']):
+            o = wc['opts']
+            o['warmup_delay'] = 0
+            if rng.random() < 0.5:
+                o['copy_env'] = True
+            sec = None
+            if rng.random() < 0.6:
+                sec = {'ONLY_%d' % i: 'v%d' % i}
+                if rng.random() < 0.4:
+                    sec['FOO'] = 'foo of %d' % i
+                wc['ini_env_section'] = sec
+            merged = dict(genv or {})
+            merged.update(sec or {})
+            # what the oracle compares with (not written as an option)
+            o['env'] = merged
+            wc['cmd'] = 'prog%d --marker=%s --wid=$(circus.wid)' % (
+                i, wc['marker'])
+        n = rng.choice([1, 2, 4])
+        ops = gen.gen_history(rng, cfg, n, ['incr', 'restart', 'reload'],
+                              None, quiet_p=0.6)
+        return {'cfg': cfg, 'ops': ops}
+
     def gen(self, rng, tier, seed):
+        if rng.random() < 0.12:
+            return self.gen_ini(rng, tier, seed)
         cfg = gen.gen_base_cfg(rng, seed, kinds=('obedient', 'selfexit',
                                                  'slow', 'stubborn'),
                                grace=[0, 0.05, 0.25, 1.0],
